@@ -204,17 +204,47 @@ func hStrBody() string {
 func H_C20_newlines_in_strings() {
 	var d hDoc
 	isList := nondetIntRange(0, 1) == 1
+	var bodies [][2]int // [start, end) of each string body in the document
+	str := func() {
+		d.add(`"`)
+		st := len(d.s)
+		d.add(hStrBody())
+		bodies = append(bodies, [2]int{st, len(d.s)})
+		d.add(`"`)
+	}
 	if isList {
-		d.add("[", `"`, hStrBody(), `"`, ",", hWS())
+		d.add("[")
+		str()
+		d.add(",", hWS())
 		if nondetIntRange(0, 1) == 1 {
-			d.add("{", `"`, hStrBody(), `"`, ":", "1", "}", ",")
+			d.add("{")
+			str()
+			d.add(":", "1", "}", ",")
 		}
 	} else {
-		d.add("{", `"`, hStrBody(), `"`, ":", `"`, hStrBody(), `"`, ",", hWS(), `"z"`, ":")
+		d.add("{")
+		str()
+		d.add(":")
+		str()
+		d.add(",", hWS(), `"z"`, ":")
 	}
 	d.add(hBadLiteral())
 	off := len(d.s)
 	d.add(",", "\n", "1")
-	hCheckLine(isList, d.s, off, "newline characters inside string literals before the error count towards the cited line")
+	c, err, p := hParseAny(isList, d.s)
+	verifAssert(!p && c == nil && err != nil, "a document with an injected syntax error is rejected")
+	got := hErrLine(err)
+	if got >= 1 {
+		// the error is detected at the delimiter that ends the invalid literal — or, for a parser that is strict
+		// about raw line breaks inside string literals, already at such a line break; either way the cited
+		// line is one plus the number of newline characters before the detecting character
+		ok := got == hLineOf(d.s, off)
+		for _, b := range bodies {
+			for q := b[0]; q < b[1]; q++ {
+				ok = verifOr(ok, verifAnd(d.s[q] == '\n', got == hLineOf(d.s, q)))
+			}
+		}
+		verifAssert(ok, "newline characters inside string literals before the error count towards the cited line")
+	}
 	verifReach("end")
 }
